@@ -22,7 +22,7 @@ def body(c):
         consts.update(MaxTs="3", MaxId="6")
     L.model_check(c, "structure", consts, ("Structure", "NoInvention"), timeout=1800)
     g = dict(L.BASE, Keys="{1, 2, 3}", MaxTs="5", MaxId="9", Wide="0", L0Hold="0", MtMax="9", MaxLevel="2")
-    cases = L.generate(c, "walk", g, c.seed, simulate=(2500 if q else 30000), depth=36, workers=4)
+    cases = L.generate(c, "walk", g, c.seed, simulate=(1500 if q else 30000), depth=36, workers=4)
     cases = [x for x in L.dedupe(cases) if x["fam"] != "L0ToL0"]
     g2 = dict(L.BASE, Keys="{1, 2}", MaxTs="9", MaxId="16", MinL0L0="4", Wide="0", L0Hold="99", MtMax="1")
     c2 = [x for x in L.dedupe(L.generate(c, "L0L0", g2, c.seed + 1, simulate=(800 if q else 8000), depth=60, workers=4))
@@ -36,7 +36,7 @@ def body(c):
     c.cov["cases_with_at_least_5_bottom_tables"] = len(c3)
     rnd.shuffle(cases)
     rnd.shuffle(c2)
-    n = 350 if q else 5000
+    n = 160 if q else 5000
     sel = cases[:n] + c2[:n // 4] + c3[:n // 2]
     L.replay(c, "C14", sel, "state injection on disk (MANIFEST, files, validate, reopen)", inmem=False)
     multi = set(L.shape_key(x) for x in sel if sum(len(l) for l in x["pre"]["lv"]) >= 1)
